@@ -32,7 +32,7 @@ def universe(tier, seed):
     nums = NUMS[seed % len(NUMS)]
     if tier == "quick":
         return [names[0], names[1], nums[1], "__NAN__", 0, ""]
-    return [names[0], names[1], names[2], nums[0], nums[1], "__NAN__", 0, ""]
+    return [names[0], names[1], nums[0], nums[1], "__NAN__", 0, ""]  # (an 8th value: 13 M states, 74 min, 10 GB -- measured once, silent)
 
 
 # -------------------------------------------------------------------------------------------------
@@ -62,6 +62,13 @@ def raw_clone(gl):
     list.__init__(g, list(gl))
     g.content = {k: list(v) for k, v in gl.content.items()}
     return g
+
+
+def digest(c):
+    """12-byte digest of a canonical state (the visited set of the thorough tier holds millions of states)"""
+    import hashlib
+
+    return hashlib.blake2b(repr(c).encode(), digest_size=12).digest()
 
 
 def canon_real(gl):
@@ -344,7 +351,7 @@ def expand(hist):
             out["outcomes"].append("violation:" + ev[0])
             continue
         out["outcomes"].append(ev[0])
-        out["succ"].append((canon_real(ga), ev, any(len(m) > 1 for _, m in r2.g)))
+        out["succ"].append((digest(canon_real(ga)), ev, any(len(m) > 1 for _, m in r2.g)))
     return out
 
 
@@ -366,10 +373,9 @@ def explore(U, tier, depth, inits, rep, tag):
     _U, _TIER = U, tier
     seen = {}
     per_depth = []
-    results = list(pmap(expand_or_init, [[ev] for ev in inits]))
     frontier = []
     n0 = 0
-    for ev, res in zip(inits, results):
+    for ev, res in zip(inits, pmap(expand_or_init, [[ev] for ev in inits])):
         if "__harness_error__" in res or "canon" not in res:
             rep.record({"U": U, "tier": tier, "hist": [ev]}, res)
             continue
@@ -379,7 +385,7 @@ def explore(U, tier, depth, inits, rep, tag):
         seen[c] = [ev]
         n0 += 1
         if res["nontrivial"]:
-            rep.nontrivial.add(tag + repr(c))
+            rep.nontrivial.add(tag + c.hex())
         if res["violations"]:
             for v in res["violations"]:
                 rep.violation({"U": U, "tier": tier, "hist": v["hist"]}, v)
@@ -390,10 +396,9 @@ def explore(U, tier, depth, inits, rep, tag):
     for level in range(1, depth + 1):
         if not frontier:
             break
-        results = list(pmap(expand, frontier))
         nxt = []
         n_new = 0
-        for hist, res in zip(frontier, results):
+        for hist, res in zip(frontier, pmap(expand, frontier)):
             if "__harness_error__" in res or "succ" not in res:
                 rep.record({"U": U, "tier": tier, "hist": hist}, res)
                 continue
@@ -409,7 +414,7 @@ def explore(U, tier, depth, inits, rep, tag):
                 seen[c] = hist + [ev]
                 n_new += 1
                 if nontriv:
-                    rep.nontrivial.add(tag + repr(c))
+                    rep.nontrivial.add(tag + c.hex())
                 nxt.append(hist + [ev])
         per_depth.append({"depth": level, "new_states": n_new})
         frontier = nxt  # states found at the last level are checked by the transition into them, not expanded
@@ -419,27 +424,33 @@ def explore(U, tier, depth, inits, rep, tag):
 
 def run(tier, seed, rep):
     U = universe(tier, seed)
-    depth = 3 if tier == "quick" else 4
+    depth = 3  # thorough: the larger universe and the larger constructors at depth 3, plus depth 4 over a 4-value universe (below)
     rep.rule = (
         f"level-synchronous BFS over GroupedList call histories, universe U={U!r}, initial states = every list "
         f"constructor over <=2 (quick) / <=3 distinct elements of U and the dict constructors over <=2 / <=3 keys, depth {depth}; "
         "alphabet: group, group_list, append, update, remove, pop, sort, sort_by, replace_group_leader, copy with every valid "
         "argument tuple; each transition executed on a raw clone and on a copy-constructed object and on RefGroupedList; "
         "second exploration with a raw float NaN stored in the list (universe [str, number, NaN], alphabet group, group_list, "
-        "append, remove, pop, copy -- the operations the library applies to such orders), depth 3/4; "
+        "append, remove, pop, copy -- the operations the library applies to such orders), depth 3/4; thorough adds depth 4 over a 4-value universe; "
         "a state is non-trivial when some group has >= 2 members (counted on distinct canonical states)"
     )
     rep.assumptions = [
         "values are compared by == (NaN equal to NaN); the Python type of a leader (int vs numpy.float64 after sort()) is not observed",
         "a raw float NaN is explored only with group / group_list / append / remove / pop / copy (the dict constructor, sort and sort_by are documented for str_nan sentinels)",
         "member order inside a group is not part of the property",
+        "visited states are identified by a 96-bit digest of their canonical form",
     ]
     seen = explore(U, tier, depth, init_events(U, tier), rep, "")
     names, nums = NAMES[seed % len(NAMES)], NUMS[seed % len(NUMS)]
     U2 = [names[0], nums[0], NAN_TOKEN, "__NAN__"]
     inits2 = [["init_list", list(t)] for n in range(0, 4) for t in itertools.permutations(U2, n)]
-    seen2 = explore(U2, tier, depth, inits2, rep, "nan:")
+    seen2 = explore(U2, tier, depth if tier == "quick" else 4, inits2, rep, "nan:")
     rep.states = len(seen) + len(seen2)
+    if tier != "quick":
+        U3 = [names[0], nums[1], 0, ""]
+        seen3 = explore(U3, tier, 4, init_events(U3, "quick"), rep, "deep:")
+        rep.states += len(seen3)
+        rep.extra["universe_deep"] = U3
     rep.evaluations = rep.transitions
     # self-test: replaying a whole history from scratch is deterministic, on a deterministic subsample
     global _U, _TIER
@@ -455,7 +466,7 @@ def run(tier, seed, rep):
     for h in hists[:: max(1, len(hists) // 4)][:4] + list(seen2.values())[-1:]:
         g, r = build(h)
         rep.sample({"history": h, "list": [repr(x) for x in g], "content": {repr(k): [repr(x) for x in v] for k, v in g.content.items()}})
-    rep.extra["depth_completed"] = depth
+    rep.extra["depth_completed"] = depth if tier == "quick" else {"main": 3, "nan": 4, "deep": 4}
     rep.extra["universe"] = U
     rep.extra["universe_nan"] = U2
 
@@ -464,7 +475,7 @@ def expand_or_init(hist):
     """initial states: build, check, return canonical form"""
     gl, ref = build(hist)
     errs = check(gl, ref, _U)
-    out = {"canon": canon_real(gl), "violations": [], "nontrivial": any(len(m) > 1 for _, m in ref.g)}
+    out = {"canon": digest(canon_real(gl)), "violations": [], "nontrivial": any(len(m) > 1 for _, m in ref.g)}
     if errs:
         out["violations"].append({"what": f"{hist[0][0]}: {errs[0]}", "hist": hist, "errors": errs[:6]})
     return out
